@@ -135,6 +135,7 @@ def run(cx):
         "explicit-tick-under-if": (head + "lcd.animate('bounce', 0, 'hi', speed_ms=0)\nwhile True:\n    if x > 2:\n        lcd.tick()\n    x = x + 1\n", {"lcd": 1}),
         "animate-inside-the-loop": (head + "while True:\n    if x > 2:\n        lcd.animate('scroll', 0, 'late', speed_ms=0)\n        lcd.animate('blink', 1, 'later', speed_ms=0)\n    x = x + 1\n", {"lcd": 1}),
         "two-displays": (head + "lcd.animate('scroll', 0, 'a', speed_ms=0)\nlcd2.animate('typewriter', 1, 'b', speed_ms=0)\nlcd.animate('blink', 1, 'c', speed_ms=0)\nwhile True:\n    lcd2.tick()\n    sleep(1)\n", {"lcd": 1, "lcd2": 1}),
+        "animation-and-buttons": ("from Reduino.Sensors import Button\n" + head + "b1 = Button(7)\nb2 = Button(8)\nlcd.animate('scroll', 0, 'a', speed_ms=0)\nlcd2.animate('blink', 1, 'b', speed_ms=0)\nwhile True:\n    if b1.is_pressed():\n        x = x + 1\n    if b2.is_pressed():\n        x = 0\n", {"lcd": 1, "lcd2": 1}),
     }
 
     def count_ticks(nodes, acc):
@@ -157,6 +158,16 @@ def run(cx):
             continue
         got_ = count_ticks(list(out_.value.loop_body), {})
         in_setup = count_ticks(list(out_.value.setup_body), {})
+        # ... advanced on every pass: the ticks stand unconditionally at the top level of loop(), before the user's statements
+        top_ = [n_.name for n_ in out_.value.loop_body if type(n_).__name__ == "LCDTick"]
+        lead_ = []
+        for n_ in out_.value.loop_body:
+            if type(n_).__name__ in ("LCDTick", "ButtonPoll"):
+                if type(n_).__name__ == "LCDTick":
+                    lead_.append(n_.name)
+            else:
+                break
+        r.check(sorted(top_) == sorted(k_ for k_, v_ in want_.items() if v_) and lead_ == sorted(top_), f"parse/script[{label}]-ticks-unconditional-at-the-head-of-loop-sorted", (pm, pf), f"script `{label}`: top-level LCDTick nodes of loop() {top_}, leading {lead_}; expected {sorted(want_)} at the head of loop() (a tick under a condition or behind user statements does not advance the animation once per pass)")
         r.check(all(got_.get(k_, 0) == v_ for k_, v_ in want_.items()) and not in_setup, f"parse/script[{label}]-one-tick-per-animated-display", (pm, pf), f"script `{label}`: LCDTick nodes per loop() pass {got_} (in setup: {in_setup}), expected {want_}: a display advanced twice per pass runs its animations at double speed, data-dependent ticks break the rate limit's meaning")
 
     # ---- C18-NAMES ---------------------------------------------------------------------------
